@@ -318,8 +318,7 @@ func ruleC16Fold(p *Prog, r *Result) {
 		okAcc = fed
 	}
 	r.Check(okAcc, "C16.fold", "cmd/bkli.main / accumulator", p.InstrPos(c), "doc = intersect(next, doc): the running intersection is fed back as the second operand", "the running intersection is not folded through every input")
-	newDoc := accessPath(c.Common().Args[0])
-	r.Check(strings.HasSuffix(newDoc, "Document.Data"), "C16.fold", "cmd/bkli.main / operand is the merged document", p.InstrPos(c), "first operand is docs[0].Data of the freshly merged input", "intersect is not applied to the input's merged document data")
+	r.Check(isDocumentData(p, c.Common().Args[0], 0), "C16.fold", "cmd/bkli.main / operand is the merged document", p.InstrPos(c), "first operand is docs[0].Data of the freshly merged input", "intersect is not applied to the input's merged document data")
 	// the loop is an index-order range over InputPaths
 	inRange := false
 	for _, b := range fn.Blocks {
@@ -768,4 +767,138 @@ func ruleC17Main(p *Prog, r *Result) {
 		}
 	}
 	r.Check(printed, "C17.main", "cmd/bklr.main / the skeleton is what is encoded", p.InstrPos(c), "[]any{out} goes to the encoder", "the result of required is not what is written")
+}
+
+// ruleStructuralEquality(rule): bkld and bkli decide list membership by comparing entries. On the pinned tree
+// that is reflect.DeepEqual; a hand-written replacement must be an equality, not a containment: two maps (or
+// lists) are equal only if they have the same number of entries. A comparison that walks the keys of one side
+// only answers "equal" for a sub-map, and the tools then treat an entry that lost a key as unchanged.
+func ruleStructuralEquality(rule string, pkgs ...string) func(p *Prog, r *Result) {
+	return func(p *Prog, r *Result) {
+		nDeep, nOwn := 0, 0
+		for _, fn := range p.Funcs {
+			pk := fnPkg(fn)
+			if pk == nil {
+				continue
+			}
+			in := false
+			for _, w := range pkgs {
+				if shortPkg(pk.Pkg.Path()) == w {
+					in = true
+				}
+			}
+			if !in {
+				continue
+			}
+			for _, cs := range allCalls([]*ssa.Function{fn}) {
+				if cs.Name == "reflect.DeepEqual" {
+					nDeep++
+				}
+			}
+			// a hand-written comparison: func(any, any) bool at package level
+			sg := fn.Signature
+			if fn.Parent() != nil || sg.Recv() != nil || sg.Params().Len() != 2 || sg.Results().Len() != 1 {
+				continue
+			}
+			isAny := func(t types.Type) bool {
+				it, ok := t.Underlying().(*types.Interface)
+				return ok && it.NumMethods() == 0
+			}
+			bt, isBool := sg.Results().At(0).Type().Underlying().(*types.Basic)
+			if !isAny(sg.Params().At(0).Type()) || !isAny(sg.Params().At(1).Type()) || !isBool || bt.Kind() != types.Bool {
+				continue
+			}
+			// only comparisons: the function must call itself or == on its parameters; skip predicates that are not recursive
+			selfRec := false
+			for _, cs := range allCalls(samePkgClosure(fn)) {
+				if cs.Callee == fn && cs.Fn != nil {
+					selfRec = true
+				}
+			}
+			if !selfRec {
+				continue
+			}
+			nOwn++
+			pr := newPSRule(p, r, rule, p.FuncName(fn), PSOpts{})
+			a, b := fn.Params[0], fn.Params[1]
+			isP := func(par *ssa.Parameter) TM {
+				return func(t *T) bool {
+					for t != nil && (t.Op == "assert" || t.Op == "convert" || t.Op == "res") && len(t.Args) >= 1 {
+						t = t.Args[0]
+					}
+					return t != nil && t.Op == "param" && t.V == ssa.Value(par)
+				}
+			}
+			sameLen := func(pa *Path) bool {
+				for _, g := range pa.Guards {
+					if g.Kind != "eq" || g.Neg || g.A == nil || g.B == nil || g.A.Op != "len" || g.B.Op != "len" {
+						continue
+					}
+					x, y := g.A.Args[0], g.B.Args[0]
+					if (isP(a)(x) && isP(b)(y)) || (isP(b)(x) && isP(a)(y)) {
+						return true
+					}
+				}
+				return false
+			}
+			for _, kind := range []string{"map", "list"} {
+				kind := kind
+				pr.allIfAny("two "+kind+"s are equal only if they have the same number of entries", selectPaths(pr.paths, func(pa *Path) bool {
+					return pa.End == "return" && len(pa.Results) == 1 && pa.Results[0].IsConst("true") &&
+						(guardPol(pa, "kind", isP(a), kind) == 1 || guardPol(pa, "kind", isP(b), kind) == 1)
+				}), "len(a) == len(b) on every path that answers true", func(pa *Path) (bool, string) {
+					if sameLen(pa) {
+						return true, ""
+					}
+					return false, "the comparison answers true after looking at the entries of one side only: a " + kind + " that lacks (or has additional) entries counts as equal, so an entry that lost or gained a key is treated as unchanged"
+				})
+			}
+		}
+		r.Count("deepequal_sites", nDeep)
+		r.Count("hand_written_comparisons", nOwn)
+		r.Floor(rule, "entry comparisons (reflect.DeepEqual or a checked hand-written equality)", nDeep+nOwn, 1)
+	}
+}
+
+// isDocumentData: v is the Data field of a document — read directly, or returned by a helper of the repository
+// all of whose non-nil results at that position are such a field.
+func isDocumentData(p *Prog, v ssa.Value, depth int) bool {
+	if strings.HasSuffix(accessPath(v), "Document.Data") {
+		return true
+	}
+	if depth > 2 {
+		return false
+	}
+	idx := 0
+	var call *ssa.Call
+	switch x := v.(type) {
+	case *ssa.Extract:
+		call, _ = x.Tuple.(*ssa.Call)
+		idx = x.Index
+	case *ssa.Call:
+		call = x
+	}
+	if call == nil {
+		return false
+	}
+	h := call.Common().StaticCallee()
+	if h == nil || !p.InRepo(h) || h.Blocks == nil {
+		return false
+	}
+	n := 0
+	for _, b := range h.Blocks {
+		ret, ok := b.Instrs[len(b.Instrs)-1].(*ssa.Return)
+		if !ok || idx >= len(ret.Results) {
+			continue
+		}
+		rv := retValue(ret, idx)
+		if c, isC := rv.(*ssa.Const); isC && c.IsNil() {
+			continue // the failure returns
+		}
+		if !isDocumentData(p, rv, depth+1) {
+			return false
+		}
+		n++
+	}
+	return n > 0
 }
